@@ -153,7 +153,7 @@ func ruleLightVerifiers(c *Ctx) {
 			guardCmp("trust level <= 1", `\w+\.Numerator`, "<=", `\w+\.Denominator`),
 			guardCmp("denominator non-zero", `\w+\.Denominator`, "!=", "0"),
 		} {
-			c.Check(c.ge().ensures(f, g, 0), "light.ValidateTrustLevel ensures "+g.Name, w.pos(f.Pos()), "nil only behind this comparison", "ValidateTrustLevel accepts without: "+g.Name)
+			c.Check(c.ge().ensures(f, g, 2), "light.ValidateTrustLevel ensures "+g.Name, w.pos(f.Pos()), "nil only behind this comparison", "ValidateTrustLevel accepts without: "+g.Name)
 		}
 		sites := 0
 		for _, s := range w.allCallsTo("light#ValidateTrustLevel") {
@@ -290,7 +290,7 @@ func ruleLightDetector(c *Ctx) {
 			if sp.viaCallee != nil && (sp.viaCallee.Name() == "detectDivergence" || sp.viaCallee == f) {
 				continue
 			}
-			if g, _ := c.ge().guardedLocal(f, sp.at, guardCallOK("detectDivergence = nil", "light#Client.detectDivergence"), 0); !g {
+			if g, _ := c.ge().guardedLocal(f, sp.at, guardCallOK("detectDivergence = nil", "light#Client.detectDivergence"), 2); !g {
 				ok = false
 			}
 		}
@@ -319,7 +319,7 @@ func ruleLightDetector(c *Ctx) {
 				p, ok := a.V.(*ssa.Phi)
 				return ok && a.Kind == "true" && p.Comment == "headerMatched"
 			}}
-			c.Check(c.ge().ensures(f, g, 0), "light.Client.detectDivergence returns nil only if a witness matched", w.pos(f.Pos()), "nil is behind headerMatched", "detectDivergence can return nil although no witness confirmed the header")
+			c.Check(c.ge().ensures(f, g, 2), "light.Client.detectDivergence returns nil only if a witness matched", w.pos(f.Pos()), "nil is behind headerMatched", "detectDivergence can return nil although no witness confirmed the header")
 			// every place the flag becomes true is on the nil-verdict edge
 			okSet := true
 			nSet := 0
@@ -424,7 +424,7 @@ func ruleLightDetector(c *Ctx) {
 		okC := true
 		for _, sp := range successPoints(w, f) {
 			// nil only after the verdict loop ran to completion
-			if g, _ := c.ge().guardedLocal(f, sp.at, guardCmp("all verdicts read", `.*`, ">=", `cap\(make\(chan error\)\)`), 0); !g {
+			if g, _ := c.ge().guardedLocal(f, sp.at, guardCmp("all verdicts read", `.*`, ">=", `cap\(make\(chan error\)\)`), 2); !g {
 				okC = false
 			}
 		}
